@@ -78,7 +78,7 @@ Qed.
 Theorem step2_preserves s a s' : Inv2 s -> step s a s' -> Inv2 s'.
 Proof.
   intros (I & H1 & H2) St. pose proof (step_preserves s a s' I St) as I'. split; [exact I'|].
-  destruct a as [t c|t]; destruct St as [V B].
+  destruct a as [t c|t|t]; destruct St as [V B].
   - (* begin *)
     unfold begin in B. destruct (pcs s t) eqn:Hpc; try discriminate.
     destruct c as [q|f].
@@ -130,6 +130,26 @@ Proof.
         rewrite upd_other in Hn by exact N. apply (H1 u Hn).
       * intros e Hin Hl. cbn [pcs set_pc set_rootq set_token lst] in *. destruct (H2 e Hin Hl) as (u & w & q & E).
         exists u, w, q. rewrite upd_other; [exact E|]. intros ->. congruence.
+    + (* PA_oprobe *) injection B as <-. destruct (lst s) eqn:L; split.
+      * apply L1_set_pc; [exact H1 | discriminate].
+      * apply L2_set_pc; [exact H2 | rewrite Hpc; discriminate].
+      * apply L1_set_pc; [exact H1 | discriminate].
+      * apply L2_set_pc; [exact H2 | rewrite Hpc; discriminate].
+    + (* PA_owake *) destruct (wakeup_loop 0 qos 1 1 (st s) ENQUEUED); try discriminate.
+      * injection B as <-. destruct (negb (Z.land (Z.lxor (st s) new) ENQUEUED =? 0)); split.
+        -- intros u. cbn [pcs set_pc set_token set_st lst]. intros Hn.
+           destruct (Z.eq_dec u t) as [->|N]; [rewrite upd_same in Hn; discriminate|].
+           rewrite upd_other in Hn by exact N. apply (H1 u Hn).
+        -- intros e Hin Hl. cbn [pcs set_pc set_token set_st lst] in *. destruct (H2 e Hin Hl) as (u & w & q & E).
+           exists u, w, q. rewrite upd_other; [exact E|]. intros ->. congruence.
+        -- intros u. cbn [pcs set_pc set_token set_st lst]. intros Hn.
+           destruct (Z.eq_dec u t) as [->|N]; [rewrite upd_same in Hn; discriminate|].
+           rewrite upd_other in Hn by exact N. apply (H1 u Hn).
+        -- intros e Hin Hl. cbn [pcs set_pc set_token set_st lst] in *. destruct (H2 e Hin Hl) as (u & w & q & E).
+           exists u, w, q. rewrite upd_other; [exact E|]. intros ->. congruence.
+      * injection B as <-. split.
+        -- apply L1_set_pc; [exact H1 | discriminate].
+        -- apply L2_set_pc; [exact H2 | rewrite Hpc; discriminate].
     + (* PW_lock *)
       destruct (f_dispatch_queue_drain_try_lock 0 0 1 t floor (st s) 0); try discriminate.
       * injection B as <-. destruct (ret =? 0); split.
@@ -200,6 +220,15 @@ Proof.
         rewrite upd_other in Hn by exact N. apply (H1 u Hn).
       * intros e Hin Hl. cbn [pcs set_pc set_st lst] in *. destruct (H2 e Hin Hl) as (u & w & q & E).
         exists u, w, q. rewrite upd_other; [exact E|]. intros ->. congruence.
+  - (* the override continuation: publishes the link like PA_link *)
+    unfold ostep in B. destruct (pcs s t) eqn:Hpc; try discriminate. destruct was_empty; [discriminate|]. injection B as <-. split.
+    + intros u. cbn [pcs set_pc set_lst lst]. intros Hn. rewrite link_nil_iff.
+      destruct (Z.eq_dec u t) as [->|N]; [rewrite upd_same in Hn; discriminate|].
+      rewrite upd_other in Hn by exact N. apply (H1 u Hn).
+    + intros e. cbn [pcs set_pc set_lst lst]. intros Hin Hl.
+      destruct (in_link_id _ _ _ (ids_nodup s I) Hin Hl) as [Hin' Hne].
+      destruct (H2 e Hin' Hl) as (u & w & q & E). exists u, w, q. rewrite upd_other; [exact E|]. intros ->.
+      rewrite Hpc in E. injection E as E _ _. congruence.
 Qed.
 
 Theorem Inv2_reachable rb s : 0 <= rb < 2 -> reach rb s -> Inv2 s.
@@ -230,6 +259,10 @@ Proof.
   - left. destruct (T t) as (_ & _ & _ & T4). rewrite Hpc in T4. pose proof (T4 qos eq_refl) as Q.
     rewrite g_enc0. unfold ENQUEUED. rewrite (wakeup_fields r qos 3 1 g_wf0 Q eq_refl). cbv zeta. eexists. reflexivity.
   - left. eexists. reflexivity.
+  - left. destruct (lst s); eexists; reflexivity.
+  - left. destruct (T t) as (_ & _ & _ & T4). rewrite Hpc in T4. pose proof (T4 qos eq_refl) as Q.
+    rewrite g_enc0. unfold ENQUEUED. rewrite (wakeup_fields_plain r qos 1 1 g_wf0 Q eq_refl). cbv zeta.
+    destruct (_ =? _); eexists; reflexivity.
   - left. pose proof (holder s t (T t)) as K. rewrite Hpc in K. specialize (K eq_refl).
     rewrite K in g_lock0. destruct g_lock0 as [V _].
     rewrite g_enc0. rewrite (lock_fields r t floor 0 g_wf0 V).
@@ -277,11 +310,14 @@ Proof.
   unfold enabled, gstep.
   destruct (pcs s t) eqn:Hpc; cbn [qos_of] in H; try (destruct H as [H|H]; [congruence | discriminate]);
     try (eexists; reflexivity).
+  destruct (T t) as (_ & _ & _ & T4). rewrite Hpc in T4. pose proof (T4 qos eq_refl) as Q.
+  rewrite g_enc0. unfold ENQUEUED. rewrite (wakeup_fields_plain r qos 1 1 g_wf0 Q eq_refl). cbv zeta.
+  destruct (_ =? _); eexists; reflexivity.
 Qed.
 
 (* ---------------------------------------------------------------- executable runs are reachable states *)
 Definition act_valid (a : action) : bool :=
-  match a with ABegin t _ | AStep t => (0 <? t) && (t <? 1073741824) end.
+  match a with ABegin t _ | AStep t | AStepO t => (0 <? t) && (t <? 1073741824) end.
 
 Lemma run_reach rb acts : forall s s', reach rb s -> forallb act_valid acts = true -> run s acts = Some s' -> reach rb s'.
 Proof.
@@ -290,11 +326,13 @@ Proof.
   - apply andb_true_iff in V. destruct V as [Va V].
     assert (Vt : forall t, (0 <? t) && (t <? 1073741824) = true -> valid_tid t).
     { intros t Ht. apply andb_true_iff in Ht. destruct Ht as [A B]. apply Z.ltb_lt in A. apply Z.ltb_lt in B. split; assumption. }
-    destruct a as [t c|t]; cbn [act_valid] in Va.
+    destruct a as [t c|t|t]; cbn [act_valid] in Va.
     + destruct (begin s t c) as [s1|] eqn:B; [|discriminate].
       apply (IH s1 s'); [|exact V|exact E]. apply (reach_step _ _ s (ABegin t c) s1 R). split; [apply Vt; exact Va | exact B].
     + destruct (gstep s t) as [s1|] eqn:B; [|discriminate].
       apply (IH s1 s'); [|exact V|exact E]. apply (reach_step _ _ s (AStep t) s1 R). split; [apply Vt; exact Va | exact B].
+    + destruct (ostep s t) as [s1|] eqn:B; [|discriminate].
+      apply (IH s1 s'); [|exact V|exact E]. apply (reach_step _ _ s (AStepO t) s1 R). split; [apply Vt; exact Va | exact B].
 Qed.
 
 (* two submitters and two workers: thread 5 and 6 submit, 7 drains while 6's push races with its unlock *)
@@ -309,7 +347,7 @@ Definition demo_acts : list action :=
 
 Definition demo_final := run (init_state 1) demo_acts.
 
-Definition act_tid (a : action) : Z := match a with ABegin t _ | AStep t => t end.
+Definition act_tid (a : action) : Z := match a with ABegin t _ | AStep t | AStepO t => t end.
 
 Lemma gstep_frame s t s' u : gstep s t = Some s' -> u <> t -> pcs s' u = pcs s u.
 Proof.
@@ -320,6 +358,12 @@ Proof.
            end;
     injection B as <-;
     cbn [pcs set_pc set_st set_lst set_rootq set_token set_wakers]; try apply upd_other; try exact N; reflexivity.
+Qed.
+
+Lemma ostep_frame s t s' u : ostep s t = Some s' -> u <> t -> pcs s' u = pcs s u.
+Proof.
+  intros B N. unfold ostep in B. destruct (pcs s t); try discriminate. destruct was_empty; [discriminate|].
+  injection B as <-. cbn [pcs set_pc set_lst]. apply upd_other. exact N.
 Qed.
 
 Lemma begin_frame s t c s' u : begin s t c = Some s' -> u <> t -> pcs s' u = pcs s u.
@@ -335,9 +379,10 @@ Proof.
   induction acts as [|a acts IH]; cbn [run forallb]; intros s s' E V.
   - injection E as <-. reflexivity.
   - apply andb_true_iff in V. destruct V as [Va V]. apply negb_true_iff in Va. apply Z.eqb_neq in Va.
-    destruct a as [t c|t]; cbn [act_tid] in Va.
+    destruct a as [t c|t|t]; cbn [act_tid] in Va.
     + destruct (begin s t c) as [s1|] eqn:B; [|discriminate]. rewrite (IH s1 s' E V). apply (begin_frame s t c s1 u B). congruence.
     + destruct (gstep s t) as [s1|] eqn:B; [|discriminate]. rewrite (IH s1 s' E V). apply (gstep_frame s t s1 u B). congruence.
+    + destruct (ostep s t) as [s1|] eqn:B; [|discriminate]. rewrite (IH s1 s' E V). apply (ostep_frame s t s1 u B). congruence.
 Qed.
 
 Lemma demo_reach : exists s, demo_final = Some s /\ reach 1 s /\ quiescent s /\ rootq s = 0 /\ started s = [1; 0] /\ nextid s = 2.
@@ -354,4 +399,32 @@ Proof.
       unfold demo_acts. cbn [forallb act_tid].
       apply Z.eqb_neq in N5, N6, N7. rewrite (Z.eqb_sym 5 t), (Z.eqb_sym 6 t), (Z.eqb_sym 7 t), N5, N6, N7. reflexivity.
     + vm_compute in E. injection E as <-. cbn [rootq started nextid]. repeat split.
+Qed.
+
+(* a run through the override continuation: 6 pushes onto the non-empty list before 5 (which emptied... made it non-empty)
+   has woken the queue, decides to override, and its rmw loop (no MAKE_DIRTY) is the one that sets ENQUEUED and pushes
+   the lane on the root queue; 5's later wakeup only adds DIRTY *)
+Definition demo2_acts : list action :=
+  [ABegin 5 (CAsync 1); AStep 5;
+   ABegin 6 (CAsync 3); AStep 6;
+   AStepO 6; AStep 6; AStep 6; AStep 6;
+   AStep 5; AStep 5; AStep 5;
+   ABegin 7 (CWorker 0); AStep 7; AStep 7;
+   AStep 7; AStep 7; AStep 7; AStep 7; AStep 7; AStep 7; AStep 7; AStep 7; AStep 7; AStep 7; AStep 7].
+
+Lemma demo2_reach : exists s, run (init_state 1) demo2_acts = Some s /\ reach 1 s /\ quiescent s /\ rootq s = 0 /\
+                              started s = [1; 0] /\ nextid s = 2 /\ lst s = [].
+Proof.
+  destruct (run (init_state 1) demo2_acts) as [s|] eqn:E; [|vm_compute in E; discriminate].
+  exists s. split; [reflexivity|]. split.
+  - apply (run_reach 1 demo2_acts (init_state 1) s); [apply reach_init; reflexivity | vm_compute; reflexivity | exact E].
+  - split.
+    + intros t.
+      destruct (Z.eq_dec t 5) as [->|N5]; [vm_compute in E; injection E as <-; reflexivity|].
+      destruct (Z.eq_dec t 6) as [->|N6]; [vm_compute in E; injection E as <-; reflexivity|].
+      destruct (Z.eq_dec t 7) as [->|N7]; [vm_compute in E; injection E as <-; reflexivity|].
+      rewrite (run_frame demo2_acts t (init_state 1) s E); [reflexivity|].
+      unfold demo2_acts. cbn [forallb act_tid].
+      apply Z.eqb_neq in N5, N6, N7. rewrite (Z.eqb_sym 5 t), (Z.eqb_sym 6 t), (Z.eqb_sym 7 t), N5, N6, N7. reflexivity.
+    + vm_compute in E. injection E as <-. cbn [rootq started nextid lst]. repeat split.
 Qed.
